@@ -42,7 +42,8 @@ def build_roles(reg, common):
             state.heap[o.oid].fields["wbits"] = wb
             return o
         return f
-    reg.shape("Ghost", ghost=True, fields={"n_comp": "nat", "n_decomp": "nat"})
+    reg.shapes["Ghost"].fields.update({"n_comp": "nat", "n_decomp": "nat"}) if "Ghost" in reg.shapes else \
+        reg.shape("Ghost", ghost=True, fields={"n_comp": "nat", "n_decomp": "nat"})
     reg.external("zlib.compressobj", mk_z("comp"))
     reg.external("zlib.decompressobj", mk_z("decomp"))
     reg.shape("PMD", cls=CD + ":PerMessageDeflate", fields={
@@ -88,6 +89,11 @@ def build_roles(reg, common):
 
 
 def build(reg):
+    # the send side of the protocol (sendMessage with a negotiated extension: the compressor's complete output goes out,
+    # RSV1 on the first frame only, do-not-compress bypasses the compressor, a refused message leaves the two ends in
+    # step) is a unit of the shared WebSocketProtocol family, tagged C12
+    from . import ws_units
+    ws_units.build(reg)
     common = dict(props=["C12"], spec_module="specs.c12")
     reg.type_aliases["val"] = "const:True|str"
     reg.type_aliases["vals"] = "clist:1:@val|clist:2:@val"
@@ -217,6 +223,14 @@ print(json.dumps({"cases": n, "bad": bad[:5]}))
 """
 
 
+def replay(o):
+    unit = o.get("unit") or o.get("name", "")
+    if "sendMessage" in unit:
+        from . import ws_pair_harness
+        return ws_pair_harness.run("messages")
+    return {"reproduced": False, "detail": "no replay harness for this unit"}
+
+
 def extra_checks(tier, seed):
     """what OfferAccept.get_extension_string announces: decided by complete enumeration of its finite domain (every
     admissible combination of offer requests, accept requests and accept overrides) on the real code -- exactly the
@@ -226,6 +240,13 @@ def extra_checks(tier, seed):
     t0 = time.time()
     out = R.run_py(_EXT_STRING_HARNESS, timeout=120)
     ok = isinstance(out, dict) and out.get("cases", 0) > 256 and out.get("bad") == []
-    return [{"name": "C12/lemma/extension-string-announces-exactly-the-requests", "kind": "lemma-finite",
+    extra = []
+    if tier == "thorough":
+        from . import ws_pair_harness as H
+        extra.append(R.native_crosscheck(
+            "C12/bounded/message-sequences-through-a-real-pair", H.HARNESS % {"mode": "messages"},
+            "9 negotiated configurations x 5 fragment sizes x 3 send limits x both directions x 9 payloads (compressible, "
+            "incompressible, repeated, empty, do-not-compress), real zlib"))
+    return extra + [{"name": "C12/lemma/extension-string-announces-exactly-the-requests", "kind": "lemma-finite",
              "status": "proved" if ok else "refuted", "backend": "enumeration(%s admissible accepts, exhaustive)" % (out.get("cases") if isinstance(out, dict) else "?"),
              "time": round(time.time() - t0, 2), "info": {"detail": str(out)[:300]}}]
